@@ -27,6 +27,8 @@ fn field_attr(recvs: &[Recv], scope: &str, f: &Field, k: usize) -> String {
     }
     match f.default {
         Def::None => {}
+        // (the same thing spelled as a function: `lit` is a name generated code is tempted to use itself)
+        Def::Trait if k % 4 == 1 => opts.push("default = lit".into()),
         Def::Trait => opts.push("default".into()),
         Def::Func if hn.starts_with("own_") => opts.push(if k % 2 == 0 { format!("default = \"{hn}\"") } else { format!("default = {hn}") }),
         // (a quoted path may carry generic arguments the way a type does: `"f<0>"`)
@@ -492,6 +494,7 @@ pub fn emit_dispatch(r: &Recv, out: &mut String) {
 pub const PRELUDE: &str = r#"// @generated by the corpus emitter — a shard of receiver programs
 #![allow(dead_code, unused_variables, unused_mut, unused_imports, non_snake_case, clippy::all)]
 
+fn lit<T: ::core::default::Default>() -> T { ::core::default::Default::default() }
 #[derive(Debug, Default)] pub struct Foreign<T>(pub T);
 impl<T: ::vf_support::Dump> ::vf_support::Dump for Foreign<T> { fn dump(&self) -> ::vf_support::Value { ::vf_support::Dump::dump(&self.0) } }
 fn attrs_count(attrs: Vec<syn::Attribute>) -> ::darling::Result<usize> { Ok(attrs.len()) }
@@ -533,7 +536,7 @@ pub fn emit_shard_darling_only(recvs: &[Recv], ids: &[usize]) -> String {
         if line.starts_with("#![allow(") {
             // a crate that denies style lints: what the derive adds (locals, helper names) is not the
             // user's spelling and must not be linted as such
-            out.push_str("#![allow(dead_code, unused_variables, unused_mut, unused_imports, clippy::all)]\n#![deny(nonstandard_style)]\n");
+            out.push_str("#![allow(dead_code, unused_variables, unused_mut, unused_imports, clippy::all)]\n#![deny(nonstandard_style)]\n#![allow(non_upper_case_globals)]\n");
             continue;
         }
         if line.starts_with("fn dispatch(") {
